@@ -366,6 +366,10 @@ func (f *FuncCtx) closureVar(c *Closure, name string, env *Env) (Val, bool) {
 		return found == nil
 	})
 	if found == nil {
+		// names.go: the captured variable may have been renamed in the function that builds the closure
+		if alt := f.E.renamedCapture(f.Pkg, lit, name); alt != "" && alt != name {
+			return f.closureVar(c, alt, env)
+		}
 		return Val{}, false
 	}
 	v, ok := env.vars[found]
